@@ -29,6 +29,8 @@ def tokenise(pieces):
     for p in pieces:
         if isinstance(p, str):
             flat.extend(list(p))
+        elif len(p) > 3 and p[3] == "char" and p[1] == "" and T.is_k(p[2]) and 32 <= p[2][2] < 127:
+            flat.append(chr(p[2][2]))       # a `{}` hole filled with a character known on this path (e.g. the sign)
         else:
             flat.append(p)
     # mnemonic: up to the first space
